@@ -3,6 +3,7 @@ package main
 import (
 	"fmt"
 	"os"
+	"sync"
 	"time"
 
 	"verif/internal/chainh"
@@ -67,9 +68,28 @@ func runChain(prop string) {
 			break
 		}
 	}
-	run.Set("states", st.States)
-	run.Set("transitions", st.Transitions)
-	run.Set("traces_validated_against_impl", st.Histories)
+	var syn chainh.SynthStats
+	if prop == "C07" {
+		// part (b): synthetic registries (states no short chain reaches)
+		var wg sync.WaitGroup
+		for _, p := range []*chainh.Preset{chainh.T4(chainh.AllForks), chainh.TSync32(chainh.AllForks)} {
+			wg.Add(1)
+			go func(p *chainh.Preset) { defer wg.Done(); chainh.SyntheticRegistries(run, p, run.Tier == "thorough", &syn) }(p)
+		}
+		wg.Wait()
+		fmt.Fprintf(os.Stderr, "C07 synthetic registries: states=%d slot-transitions=%d skipped=%d\n", syn.States, syn.Transitions, syn.Skipped)
+		run.Set("synthetic_registry_states", syn.States)
+		run.Set("synthetic_slot_transitions", syn.Transitions)
+	}
+	if prop == "C02" {
+		// synthetic epoch-processing inputs (states no short chain reaches), one epoch transition each
+		chainh.SyntheticEpochs(run, chainh.T4(chainh.AllForks), run.Tier == "thorough", &syn)
+		fmt.Fprintf(os.Stderr, "C02 synthetic epochs: states=%d\n", syn.States)
+		run.Set("synthetic_epoch_states", syn.States)
+	}
+	run.Set("states", st.States+syn.States)
+	run.Set("transitions", st.Transitions+syn.Transitions)
+	run.Set("traces_validated_against_impl", st.Histories+syn.States)
 	run.Set("block_transitions", st.Blocks)
 	run.Set("menu_entries_not_applicable", st.Skipped)
 	run.Set("distinct_choices_taken", st.Outcomes)
